@@ -47,6 +47,38 @@ def binsets(lat):
     return out
 
 
+def kernel_shared_profile(rec, n, bins, seed):
+    """one profile shared by several data columns: theta is passed as a 1-D array next to an N-D phi"""
+    from xgcm.transform import interp_1d_conservative
+
+    profiles = list(itertools.product(LAT, repeat=n + 1))[:: 3 if n > 1 else 1]
+    phi = np.vstack([np.eye(n), (np.arange(n) * 2.0 + 1 + seed % 3)[None, :]])
+    phi3 = np.stack([phi, phi * 2.0 + 1.0])  # two extra dimensions
+    m = len(bins) - 1
+    for th in profiles:
+        case = dict(level="kernel-shared", n=n, bins=bins, profile=list(th))
+        W, amb = R.overlap_weights(list(th), bins)
+        rec.case(("ks", n, tuple(bins), th), True, sample=case if th == profiles[1 % len(profiles)] else None, calls=1)
+        try:
+            out = interp_1d_conservative(phi3, np.array(th, dtype=float), np.array(bins, dtype=float))
+        except Exception as e:
+            rec.violation("kernel", "shared-profile-raise:" + exc_sig(e), case, "array", f"{type(e).__name__}: {e}"[:200])
+            return
+        if out.shape != (2, n + 1, m):
+            rec.violation("kernel", "shared-profile-shape", case, [2, n + 1, m], list(out.shape))
+            return
+        got = out[0, :n, :].T
+        cls = judge(got, W, amb, n, m)
+        if cls is None and not amb:
+            want1 = np.array([[float(W[j][i]) for i in range(n)] for j in range(m)]) @ (phi3[1].T)
+            if not np.allclose(out[1].T, want1, atol=1e-9):
+                cls = "weights"
+        if cls:
+            rec.violation("kernel", "shared-profile:" + cls + (":decreasing-bins" if bins[1] < bins[0] else ""), case, [[float(x) for x in row] for row in W], got)
+            if not cls.startswith("homogeneous"):
+                return
+
+
 def judge(got, W, amb, n, m, tol=1e-12):
     """got[j][i] observed weights.  returns None if ok else class string"""
     for i in range(n):
@@ -156,7 +188,11 @@ def api_case(rec, pa, pb, bi, where, layout, chunk, tkind, seed, only=False, pre
     bins = [float(np.float64(b) * scale) for b in API_BINS[bi]]
     profs = [tuple(float(np.float64(v) * scale) for v in API_PROFILES[pa]), tuple(float(np.float64(v) * scale) for v in API_PROFILES[pb])]
     phi = np.array([[1.0, 2.0, 4.0], [3.0 + seed % 2, -1.0, 5.0]])
-    da = xr.DataArray(phi.astype(np.float32 if prec in ("f4", "mixed") else np.float64), dims=["x", "zc"], name="heat")
+    if prec == "i8":
+        phi = np.array([[1.0, 2.0, 4.0], [3.0 + seed % 2, 7.0, 5.0]])
+    da = xr.DataArray(phi.astype(np.float32 if prec in ("f4", "mixed") else np.int64 if prec == "i8" else np.float64), dims=["x", "zc"], name="heat")
+    if prec == "shared":
+        profs = [profs[0], profs[0]]
     tdt = np.float32 if prec == "f4" else np.float64
     if where == "outer":
         td = xr.DataArray(np.array(profs, dtype=tdt), dims=["x", "zo"], name="dens")
@@ -167,17 +203,19 @@ def api_case(rec, pa, pb, bi, where, layout, chunk, tkind, seed, only=False, pre
         cen = [p[:nz] for p in profs]
         td = xr.DataArray(np.array(cen, dtype=tdt), dims=["x", "zc"], name="dens")
         theta = [[F(c[0])] + [(F(c[k]) + F(c[k + 1])) / 2 for k in range(nz - 1)] + [F(c[-1])] for c in cen]
+    if prec == "shared":
+        td = td.isel(x=0, drop=True)  # a single profile without the extra dimension of the data
     if layout == "zx":
         da, td = da.transpose("zc", "x"), td.transpose(*reversed(td.dims))
     if chunk:
-        da, td = da.chunk({"x": tuple(chunk)}), td.chunk({"x": tuple(chunk)})
+        da, td = da.chunk({"x": tuple(chunk)}), (td.chunk({"x": tuple(chunk)}) if "x" in td.dims else td.chunk())
     bdt = np.float32 if prec == "f4" else np.float64
     target = np.array(bins, dtype=bdt) if tkind == "nd" else xr.DataArray(np.array(bins, dtype=bdt), dims=["rho"], name="rho")
     newdim = "dens" if tkind == "nd" else "rho"
     Ws = [R.overlap_weights(t, bins) for t in theta]
     nontriv = True
     rec.case(("api", pa, pb, bi, where, layout, tuple(chunk or ()), tkind, prec), nontriv, sample=case)
-    tol = 1e-9 if prec == "f8" else 1e-5
+    tol = 1e-9 if prec in ("f8", "i8", "shared") else 1e-5
     try:
         with warnings.catch_warnings():
             warnings.simplefilter("ignore")
@@ -215,7 +253,7 @@ def api_case(rec, pa, pb, bi, where, layout, chunk, tkind, seed, only=False, pre
             cls = "values"
             if bins[1] < bins[0]:
                 cls += ":decreasing-bins"
-            if prec != "f8":
+            if prec not in ("f8", "shared"):
                 cls += ":" + prec
             rec.violation("api", cls, dict(case, column=c), exp, got[c])
             return
@@ -245,6 +283,10 @@ def api_cases(tier):
                     out.append((pa, pb, bi, where, layout, chunk, tkind, "mixed"))
                     if k % 3 == 0:
                         out.append((pa, pb, bi, where, layout, chunk, tkind, "f4"))
+                    out.append((pa, pb, bi, where, layout, chunk, tkind, "i8"))
+                if pb == pa + 1:
+                    layout, chunk, tkind = variants[-1]
+                    out.append((pa, pb, bi, where, layout, chunk, tkind, "shared"))
     return out
 
 
@@ -270,6 +312,8 @@ def run_shard(shard, tier, seed, rec):
                 kernel_case(rec, n, bs[bi], np.float32, seed)
             if bi % 2 == 0:
                 kernel_case(rec, n, bs[bi], np.float64, seed, aff=1 + (bi // 2) % 2)
+            if n <= 2 or bi % 3 == 0:
+                kernel_shared_profile(rec, n, bs[bi], seed)
     else:
         ac = api_cases(tier)
         _API_GRID.clear()
@@ -279,11 +323,15 @@ def run_shard(shard, tier, seed, rec):
 
 def replay_case(case, seed, rec):
     if case["level"] == "kernel":
-        dt = np.float32 if "32" in case["dtype"] else np.float64
+        dt = np.float32 if "32" in case.get("dtype", "") else np.float64
         # the profiles are stacked as columns of one call (that is part of the case: column
         # independence), so the whole batch is re-run and the one profile picked out
         rec.MAXVIOL = 10 ** 6
         kernel_case(rec, case["n"], case["bins"], dt, seed, aff=case.get("aff", 0))
+        rec.viol = [v for v in rec.viol if v["case"].get("profile") == case["profile"]]
+    elif case["level"] == "kernel-shared":
+        rec.MAXVIOL = 10 ** 6
+        kernel_shared_profile(rec, case["n"], case["bins"], seed)
         rec.viol = [v for v in rec.viol if v["case"].get("profile") == case["profile"]]
     else:
         _API_GRID.clear()
